@@ -51,8 +51,10 @@ func init() {
 			if nFee == 0 || bt.Tx.Wrap == WrapGov {
 				return // messages inside a proposal do not execute in this transaction
 			}
-			if bt.Expect.Verdict == MustReject {
-				// "a transaction that would execute ...": one the models know cannot execute is outside the statement
+			if bt.Expect.Verdict == MustReject && nested {
+				// "a transaction that would execute ...": a wrapped transaction the models know cannot execute its
+				// nested operation (no grant, unknown id) is outside the statement; top-level operations are always
+				// attempted, so top-level transactions are always judged
 				w.Class("c06.cannot-execute")
 				return
 			}
@@ -63,6 +65,10 @@ func init() {
 			if bt.CheckRes.Code != 0 {
 				if bt.Tx.Fee.Mode == FeeExact && bt.Tx.Fault == 0 && bt.Tx.Wrap == WrapTop {
 					w.Class("c06.exact-fee-rejected")
+					// directed search: the exact fee was refused, so look for the amount this state does admit
+					// (sums over strict subsets of the operations, and the neighbours of the exact sum). An admitted
+					// variant is judged by this same oracle (fee != oracle sum -> finding).
+					c06Probe(w, bt)
 				}
 				return
 			}
@@ -106,4 +112,60 @@ func init() {
 			}
 		},
 	})
+}
+
+func c06Probe(w *World, bt *BuiltTx) {
+	var feeOps []*BuiltOp
+	for _, o := range bt.Ops {
+		if o.IsFeeOp {
+			feeOps = append(feeOps, o)
+		}
+	}
+	if len(feeOps) == 0 || len(feeOps) > 5 || w.Notes["c06.probing"] == true {
+		return
+	}
+	exact := w.ExpectedFees(feeOps)
+	if len(exact) != 1 {
+		return // two fee denominations: not probed
+	}
+	var total *big.Int
+	for _, v := range exact {
+		total = v
+	}
+	cands := map[string]bool{}
+	add := func(v *big.Int) {
+		if v.Sign() > 0 && v.Cmp(total) != 0 {
+			cands[v.String()] = true
+		}
+	}
+	add(new(big.Int).Sub(total, big.NewInt(1)))
+	add(new(big.Int).Add(total, big.NewInt(1)))
+	for mask := 1; mask < (1<<uint(len(feeOps)))-1; mask++ {
+		var sub []*BuiltOp
+		for i, o := range feeOps {
+			if mask&(1<<uint(i)) != 0 {
+				sub = append(sub, o)
+			}
+		}
+		for _, v := range w.ExpectedFees(sub) {
+			add(v)
+		}
+	}
+	w.Notes["c06.probing"] = true
+	defer delete(w.Notes, "c06.probing")
+	n := 0
+	for c := range cands {
+		if n >= 12 {
+			break
+		}
+		n++
+		t := *bt.Tx
+		t.Ops = append([]Op{}, bt.Tx.Ops...)
+		t.Fee = FeeSpec{Mode: FeeLiteral, Amt: c}
+		w.Class("c06.directed-probe")
+		w.RunTx(&t)
+		if w.stop() {
+			return
+		}
+	}
 }
